@@ -39,6 +39,24 @@ def perturbed(cases, seed):
     return out
 
 
+def tiny_models():
+    """Two-variable rows and objectives whose second coefficient (and objective offset) is of small
+    magnitude, either sign: small numbers must keep their sign and digits through both renderings."""
+    V = lambda n: {"op": "var", "name": n}
+    F = lambda f: {"op": "num", "n": 0, "d": 1, "f": f}
+    B = lambda n: {"inf": 0, "n": n, "d": 1}
+    out = []
+    for i, c in enumerate([1e-6, -1e-6, 2.0 ** -20, -(2.0 ** -20), 9.9e-6, -9.9e-6, 1e-5, -1e-5, 1e-9, -1e-9, -3e-7, 4e-5, -4e-5]):
+        for j, off in enumerate([0.0, 1e-6, -1e-6]):
+            lin_ = {"op": "add", "a": V("x"), "b": {"op": "mul", "a": F(c), "b": V("y")}}
+            obj = lin_ if off == 0.0 else {"op": "add", "a": lin_, "b": F(off)}
+            out.append({"id": f"tiny{i}_{j}", "sense": "min", "obj": obj,
+                        "cons": [{"lhs": lin_, "cmp": "le", "rhs": {"op": "num", "n": 3, "d": 1}, "assert": False, "name": ""},
+                                 {"lhs": {"op": "sub", "a": V("y"), "b": {"op": "mul", "a": F(-c), "b": V("x")}}, "cmp": "ge", "rhs": F(off), "assert": False, "name": ""}],
+                        "dom": [{"name": "x", "kind": "real", "lo": B(-4), "hi": B(4)}, {"name": "y", "kind": "real", "lo": B(-3), "hi": B(5)}]})
+    return out
+
+
 def check(tier, seed, replay=None):
     prop = "C12"
     o = core.Outcome(prop, tier, seed)
@@ -48,7 +66,7 @@ def check(tier, seed, replay=None):
         cases = [json.load(open(replay))]
     else:
         kcases, meta = lin.gen_all("quick", seed, per_family_quick=(250 if tier == "quick" else 4000))
-        cases = kcases + perturbed([c for c in kcases if c.get("fam") in ("A", "C", "D", "F")][::3], seed)
+        cases = kcases + perturbed([c for c in kcases if c.get("fam") in ("A", "C", "D", "F")][::3], seed) + tiny_models()
         # compiled models come from the text front end: every case is rendered to source first
         cases = [{"id": c["id"], "text": render.model_text(c, rewrite.plain)} for c in cases]
         cases += [{"id": f"prog{i}", "text": p} for i, p in enumerate(fmt.programs())]
